@@ -873,9 +873,48 @@ class PropertiesDataBounds(PropertiesData):
             return False
 
         if self_has_bounds:
+            self_bounds = self.get_bounds()
+            other_bounds = other.get_bounds()
+
+            # Bounds inherit from their parent the properties that
+            # define the coordinate type or the interpretation of the
+            # array values. Setting such a property on the bounds to
+            # the value that it has on the parent is therefore the
+            # same as not setting it (and it is not written to a
+            # netCDF dataset), so it is ignored when it is redundant
+            # in this way on whichever of the bounds it is set.
+            redundant = []
+            for prop in (
+                "units",
+                "standard_name",
+                "axis",
+                "positive",
+                "calendar",
+                "month_lengths",
+                "leap_year",
+                "leap_month",
+            ):
+                if not (
+                    self_bounds.has_property(prop)
+                    or other_bounds.has_property(prop)
+                ):
+                    continue
+
+                if all(
+                    not b.has_property(prop)
+                    or (
+                        p.has_property(prop)
+                        and self._equals(
+                            b.get_property(prop), p.get_property(prop)
+                        )
+                    )
+                    for p, b in ((self, self_bounds), (other, other_bounds))
+                ):
+                    redundant.append(prop)
+
             if not self._equals(
-                self.get_bounds(),
-                other.get_bounds(),
+                self_bounds,
+                other_bounds,
                 rtol=rtol,
                 atol=atol,
                 verbose=verbose,
@@ -883,6 +922,7 @@ class PropertiesDataBounds(PropertiesData):
                 ignore_type=ignore_type,
                 ignore_fill_value=ignore_fill_value,
                 ignore_compression=ignore_compression,
+                ignore_properties=redundant,
             ):
                 logger.info(
                     f"{self.__class__.__name__}: Different bounds"
